@@ -176,3 +176,30 @@ Proof.
       | |- context [if verb_is ?r ?v ?n then _ else _] => let E := fresh in destruct (verb_is r v n) eqn:E; [exfalso; eapply (Hne v n); [discriminate|exact E]|]
       end. intros Hfin. inversion Hfin; subst. lia.
 Qed.
+
+(* ---- the artificial TRXC delay (FAKE_TRXC_DELAY <ms>, slept before every reply): time.sleep() takes at most 2^63-1 ns ---- *)
+Lemma sleep_boundary : forall ms, sleep_overflows ms = true <-> 9223372036855 <= ms.
+Proof. intros ms. unfold sleep_overflows. split; intros H; [|apply andb_true_intro; split]; lia. Qed.
+
+Lemma delay_too_long_refused s a : 9223372036854 < a ->
+  fake_handler s [v_FAKE_TRXC_DELAY; py_str a] = (s, Some (CStatus (-1) [])).
+Proof.
+  intros Ha. unfold fake_handler. vb. rewrite arg1. unfold trxc_delay_ms_max.
+  destruct (9223372036854 <? a) eqn:E; [reflexivity|lia].
+Qed.
+
+Lemma delay_accepted_sleepable s a : a <= 9223372036854 ->
+  s_delay (fst (fake_handler s [v_FAKE_TRXC_DELAY; py_str a])) = a /\ snd (fake_handler s [v_FAKE_TRXC_DELAY; py_str a]) = None /\ sleep_overflows a = false.
+Proof.
+  intros Ha. unfold fake_handler. vb. rewrite arg1. unfold trxc_delay_ms_max.
+  destruct (9223372036854 <? a) eqn:E; [lia|]. cbn [fst snd sim_set s_delay]. split; [reflexivity|split; [reflexivity|]].
+  apply not_true_is_false. intros H. apply sleep_boundary in H. lia.
+Qed.
+
+(* the whole datagram, on the freshly started transceiver: refused with -1, nothing changes, and the NEXT command is served *)
+Example delay_overflow_refused_fresh :
+  let w0 := {| w_trx := [trx0 {| c_idx := 0; c_mgt := true; c_clock := true; c_pm := true; c_children := [] |}]; w_links := []; w_gen := false |} in
+  let cmd := [67;77;68;32] ++ v_FAKE_TRXC_DELAY ++ [32] ++ py_str 9223372036855 ++ [0] in
+  let '(w1, out, _) := handle_rx w0 0%nat cmd [] in
+  w1 = w0 /\ out = RReply ([82;83;80;32] ++ v_FAKE_TRXC_DELAY ++ [32;45;49;32] ++ py_str 9223372036855 ++ [0]).
+Proof. vm_compute. split; reflexivity. Qed.
